@@ -21,7 +21,7 @@ RULE = ('all-cells: Hypothesis draws SI magnitudes/signs/zero flags for the two 
         'table) and SI magnitude (independent SI table), plus the inverse laws (a+b)-b=a and a-b=-(b-a). '
         'random-cell: Hypothesis draws one cell with wide magnitudes (1e-9..1e9, ints, zeros); a quarter of the operands '
         'first go through a unit conversion (copy or in place), and a fifth have a derived copy converted in place before '
-        'the operation - neither may change the outcome. '
+        'the operation - neither may change the outcome; in a quarter of the cells one operand object first takes part in a throw-away operation with the partner re-expressed in another unit (an operand is the same quantity after it was used). '
         'Non-trivial = the two operands use different units / at least one unit is not the SI unit, so a '
         'computation on raw .value would be visible; distinct = canonical JSON of the case.')
 ASSUMPTIONS = [
